@@ -306,6 +306,7 @@ def build(shells, cls=None):
                  1-D coefficients, integer centre), and "t": "short" for the one-letter coordinate type
       "ic"       the atom index ``icenter`` handed to the constructor (a label: two make_contractions results concatenated
                  into one basis repeat the indices on different centres)
+      "renorm"   number of extra assign_norm_cont() calls right after construction
       "share"    key: shells with the same key are given the same centre ndarray OBJECT (what make_contractions does for
                  the shells of one atom); "share_e": the same exponent ndarray object
     """
@@ -332,6 +333,8 @@ def build(shells, cls=None):
             out.append(cls(int(s["l"]), coord, coeffs, exps, ctype, icenter=int(s["ic"])))
         else:
             out.append(cls(int(s["l"]), coord, coeffs, exps, ctype))
+        for _ in range(int(s.get("renorm", 0))):
+            out[-1].assign_norm_cont()  # recomputing the normalisation of unchanged parameters changes nothing
         if key is not None:
             shared[key] = out[-1]
     return out
@@ -368,6 +371,9 @@ def add_argrep(rng, shells, classes):
         if rng.random() < 0.6:
             s["ic"] = int(rng.integers(0, 2))  # atom labels, deliberately repeated on different centres
             used.add("icenter")
+        if rng.random() < 0.3:
+            s["renorm"] = int(rng.integers(1, 3))  # assign_norm_cont() called again once or twice after construction
+            used.add("renormalised-again")
         if rng.random() < 0.5 or s.get("share"):
             s["share"] = "g"
         if rng.random() < 0.5:
